@@ -10,6 +10,8 @@
 import glob, json, os, re, shutil, subprocess, sys, time
 
 ENV = dict(os.environ, GOFLAGS="-mod=mod", GOPROXY="off", GOSUMDB="off", GOTOOLCHAIN="local")
+REPO = os.environ.get("VERIF_REPO", "/repo")
+ROOT = os.path.dirname(os.path.dirname(os.path.abspath(__file__)))
 PKGS = "./client/ ./server/ ./protocol/ ./util/ ./share/ ./errors/ ./codec/ ./reflection/ ./serverplugin/"
 
 
@@ -77,18 +79,19 @@ def confirm(pid, wt=None, sid=None):
 
 
 def detect(sid, checks=None):
-    dst = os.path.join("/verif/seeded", sid)
+    dst = os.path.join(ROOT, "seeded", sid)
     meta = json.load(open(os.path.join(dst, "meta.json")))
     checks = checks or [meta["property"]]
-    rc, o = sh("git status --porcelain", cwd="/repo")
-    assert o.strip() == "", "/repo is not clean: " + o
-    rc, o = sh("git apply %s" % os.path.join(dst, "patch.diff"), cwd="/repo")
+    if os.path.exists(os.path.join(REPO, ".git")):
+        rc, o = sh("git status --porcelain", cwd=REPO)
+        assert o.strip() == "", REPO + " is not clean: " + o
+    rc, o = sh("git apply %s" % os.path.join(dst, "patch.diff"), cwd=REPO)
     assert rc == 0, "patch does not apply to /repo: " + o
     results = meta.get("detection", {})
     try:
         for c in checks:
             t0 = time.time()
-            rc, o = sh("./check %s quick" % c, cwd="/verif", timeout=3600)
+            rc, o = sh("./check %s quick" % c, cwd=ROOT, timeout=3600)
             viol = [l for l in o.splitlines() if l.startswith("VIOLATION")]
             results[c] = {"rc": rc, "violation_line": viol[0] if viol else None, "wall_s": round(time.time() - t0, 1),
                           "summary": o.strip().splitlines()[0][:300] if o.strip() else ""}
@@ -100,7 +103,7 @@ def detect(sid, checks=None):
                     results[c]["observed"] = (rp.get("observed") or "")[:400]
             print(sid, c, "rc=%d" % rc, viol[0] if viol else "(no violation)")
     finally:
-        sh("git checkout -- .", cwd="/repo")
+        sh("git apply -R %s" % os.path.join(dst, "patch.diff"), cwd=REPO)
     meta["detection"] = results
     json.dump(meta, open(os.path.join(dst, "meta.json"), "w"), indent=1)
 
